@@ -90,6 +90,10 @@ def _var_change(path, var):
                 # cursor += <decoded length> + c   (lengths are >= 0)
                 net += a.value.right.value
                 kind = kind or 'const'
+            elif isinstance(a.op, ast.Add) and isinstance(
+                    a.value, ast.Name):
+                # cursor += <decoded length>   (lengths are >= 0)
+                kind = kind or 'const'
             elif isinstance(a.op, ast.Mult) and isinstance(
                     a.value, ast.Constant) and a.value.value >= 2:
                 return ('grow', )
